@@ -406,7 +406,69 @@ func c19Decode(c *fw.Ctx, idx int) {
 	r := c.R
 	s := []byte(c19Seeds[r.Intn(len(c19Seeds))])
 	class := ""
-	switch r.Intn(9) {
+	switch r.Intn(12) {
+	case 9, 10, 11:
+		// sequences of records: the decoder carries state from record to record
+		// (the date of the last H DTE record, the extension table and the record
+		// length of the last I record), so several I records of different tables,
+		// B records fitting the previous or the current table or neither, dates
+		// before and after fixes, and unknown record types are mixed
+		class = "record-sequence"
+		var sb strings.Builder
+		if r.Chance(9, 10) {
+			sb.WriteString("AXXX001\n")
+		}
+		eol := []string{"\n", "\r\n"}[r.Intn(2)]
+		curLen := 35
+		n := r.Range(3, 14)
+		for i := 0; i < n; i++ {
+			switch r.Intn(10) {
+			case 0, 1:
+				fmt.Fprintf(&sb, "HFDTE%02d%02d%02d", r.Range(0, 32), r.Range(0, 13), r.Intn(100))
+			case 2, 3, 4:
+				// a well-formed I record: k extensions laid out back to back from column 36
+				k := r.Intn(4)
+				fmt.Fprintf(&sb, "I%02d", k)
+				pos := 36
+				for j := 0; j < k; j++ {
+					w := r.Range(1, 4)
+					code := []string{"LAD", "LOD", "TDS", "FXA", "SIU", "ENL"}[r.Intn(6)]
+					if code == "LAD" || code == "LOD" || code == "TDS" {
+						w = r.Range(1, 3)
+					}
+					fmt.Fprintf(&sb, "%02d%02d%s", pos, pos+w-1, code)
+					pos += w
+				}
+				curLen = pos - 1
+				if r.Chance(1, 6) {
+					sb.WriteString("9")
+				}
+			case 5, 6, 7, 8:
+				b := "B1316284654230N00839078EA0147801630" + "9876543210123456789098765432101234567890"
+				l := curLen
+				switch r.Intn(6) {
+				case 0:
+					l = 35
+				case 1:
+					l = r.Intn(len(b) + 1)
+				case 2:
+					l = curLen - 1
+				case 3:
+					l = curLen + 1
+				}
+				if l < 0 {
+					l = 0
+				}
+				if l > len(b) {
+					l = len(b)
+				}
+				sb.WriteString(b[:l])
+			default:
+				sb.WriteString([]string{"", "LXXXcomment", "C1234", "F1316280102", "G0123ABC", "K131628", "E131628PEV"}[r.Intn(7)])
+			}
+			sb.WriteString(eol)
+		}
+		s = []byte(sb.String())
 	case 0:
 		class = "seed"
 	case 1, 2:
